@@ -727,8 +727,12 @@ where
         self: &'a mut Pin<&mut Self>,
         cx: &mut Context<'_>,
     ) -> Poll<Option<Result<(), C::Error>>> {
-        while self.channel_pin_mut().poll_ready(cx)?.is_pending() {
+        if self.channel_pin_mut().poll_ready(cx)?.is_pending() {
+            // Flushing may make room. If the channel is still not ready afterwards, it has
+            // registered the waker, so yield instead of retrying within this poll: a transport
+            // whose readiness does not depend on flushing would otherwise be polled forever.
             ready!(self.channel_pin_mut().poll_flush(cx)?);
+            ready!(self.channel_pin_mut().poll_ready(cx)?);
         }
         Poll::Ready(Some(Ok(())))
     }
